@@ -27,6 +27,7 @@ class Rule:
         self.items = items
         self.caret = caret        # 0-based item index before which ^ is written
         self.opt = opt or []      # list of (start, end) 0-based inclusive optional ranges
+        self.opt_body = False     # write the optional brackets in the rule body (lhs/rhs part) instead of the context
         self.line = line
 
 
@@ -89,6 +90,8 @@ class Prog:
         any_id = len(classes)
         idx["ANY"] = any_id
         classes.append(list(range(n + 2)))
+        idx["#"] = any_id + 1          # the line-break item: matches the line-break pseudo-glyph only
+        classes.append([n])
         passes = []
         pidx = 0
         for ttype, ps in self.tables:
@@ -127,10 +130,11 @@ class Prog:
         if self.class_trees:
             defs = [conv(self.class_trees.get(nm, {"k": "glyphs", "g": self.classes[nm]})) for nm in names]
             defs.append({"k": "glyphs", "g": list(range(n + 2))})
+            defs.append({"k": "glyphs", "g": [n]})
         return {"numGlyphs": n + 2, "numReal": n, "lb": n, "phantom": n + 1, "anyClass": any_id,
                 "classRefs": self.class_refs, "autoPseudo": self.auto_pseudo, "ignoreBad": self.ignore_bad,
                 "gattr": self.gattr, "features": self.features, "languages": self.languages, "nameStart": self.name_start,
-                "classes": classes, "classDefs": defs, "classNames": names + ["ANY"], "passes": passes}
+                "classes": classes, "classDefs": defs, "classNames": names + ["ANY", "#"], "passes": passes}
 
 
 def rule_text(r):
@@ -159,6 +163,9 @@ def rule_text(r):
                 o += ":(%s)" % " ".join(str(a) for a in it.assoc) if len(it.assoc) > 1 else ":%d" % it.assoc[0]
             if it.attrs:
                 o += " {" + "; ".join("%s %s %s" % (a, op, t) for (a, op, t, _i) in it.attrs) + "}"
+            if r.opt_body:
+                o = pre + o + post
+                pre = post = ""
             rhs.append(o)
             c = "_"
         else:
@@ -305,22 +312,25 @@ def gen_class_program(rng, size="small"):
         stmts.append("%s = %s;" % (name, text))
         trees[name] = {"k": "union", "m": tr}
         order.append(name)
-        # follow-up operations
-        r = rng.random()
-        if r < 0.2:
-            parts, tr2 = base_members(exclude=name)
-            stmts.append("%s += %s;" % (name, "(%s)" % " ".join(parts) if len(parts) > 1 else parts[0]))
-            trees[name] = {"k": "union", "m": [trees[name]] + tr2}
-        elif r < 0.32 and len(order) > 1 and name not in referenced:
-            other = rng.choice([c for c in order if c != name])
-            stmts.append("%s &= %s;" % (name, other))
-            trees[name] = {"k": "inter", "a": trees[name], "b": {"k": "ref", "c": other}}
-            referenced.add(other)
-        elif r < 0.44 and len(order) > 1 and name not in referenced:
-            other = rng.choice([c for c in order if c != name])
-            stmts.append("%s -= %s;" % (name, other))
-            trees[name] = {"k": "diff", "a": trees[name], "b": {"k": "ref", "c": other}}
-            referenced.add(other)
+        # follow-up operations (sometimes several on the same class: c &= x; c &= y; c -= z; ...)
+        for _rep in range(rng.choice([1, 1, 1, 2, 3])):
+            r = rng.random()
+            if _rep > 0:
+                r = rng.choice([0.1, 0.25, 0.25, 0.4])
+            if r < 0.2:
+                parts, tr2 = base_members(exclude=name)
+                stmts.append("%s += %s;" % (name, "(%s)" % " ".join(parts) if len(parts) > 1 else parts[0]))
+                trees[name] = {"k": "union", "m": [trees[name]] + tr2}
+            elif r < 0.32 and len(order) > 1 and name not in referenced:
+                other = rng.choice([c for c in order if c != name])
+                stmts.append("%s &= %s;" % (name, other))
+                trees[name] = {"k": "inter", "a": trees[name], "b": {"k": "ref", "c": other}}
+                referenced.add(other)
+            elif r < 0.44 and len(order) > 1 and name not in referenced:
+                other = rng.choice([c for c in order if c != name])
+                stmts.append("%s -= %s;" % (name, other))
+                trees[name] = {"k": "diff", "a": trees[name], "b": {"k": "ref", "c": other}}
+                referenced.add(other)
     # late += on an already referenced class (late binding)
     if rng.random() < 0.3 and referenced:
         c = rng.choice(sorted(referenced))
@@ -706,10 +716,19 @@ def gen_opt_program(rng, refs=False):
                         seq.append(counter[0])
                         counter[0] += 1
                 return seq
+            body_mode = rng.random() < 0.3     # optional groups written in the body of a rule without '>'
+            npre = rng.choice([0, 1, 1, 2]) if body_mode else 0
+            counter[0] = npre
             tree = mk(0)
-            if counter[0] == 0:
-                tree = [0]
-                counter[0] = 1
+            if counter[0] == npre:
+                tree = [npre]
+                counter[0] = npre + 1
+            nbody_end = counter[0]
+            if body_mode:
+                tree = list(range(npre)) + tree
+                if rng.random() < 0.4:
+                    tree.append(counter[0])
+                    counter[0] += 1
             nitems = counter[0]
             ranges, n2 = tree_ranges(tree)
             assert n2 == nitems
@@ -727,14 +746,19 @@ def gen_opt_program(rng, refs=False):
                         items.append(Item(cls=cls, mod=True, out=None))
                 else:
                     items.append(Item(cls=cls))
+            if body_mode:
+                items = []
+                for i in range(nitems):
+                    items.append(Item(cls=rng.choice(names), mod=(npre <= i < nbody_end), out=None))
             if not any(it.mod for it in items):
                 k = rng.choice(top) if top else 0
                 items[k].mod = True
             r = Rule(items, opt=ranges)
             r.tree = tree
-            if rng.random() < 0.2:
+            r.opt_body = body_mode
+            if rng.random() < 0.2 and not body_mode:
                 r.caret = rng.randint(1, nitems)
-            if refs and rng.random() < 0.6:
+            if refs and rng.random() < 0.6 and not body_mode:
                 # a copy (@n) or association referring to another item
                 mods = [i for i, it in enumerate(items) if it.mod and it.out is not None]
                 if mods:
@@ -781,6 +805,10 @@ def gen_match_rule(rng, prog):
     nmod = rng.choice([1, 1, 1, 2, 2, 3])
     npost = rng.choice([0, 0, 1, 1, 2])
     items = []
+    lb_pre = rng.random() < 0.08       # '#' as the first item: start of the segment
+    lb_post = rng.random() < 0.08      # '#' as the last item: end of the segment
+    if lb_pre:
+        items.append(Item(cls="#"))
     for _ in range(npre):
         items.append(Item(cls="ANY" if rng.random() < 0.15 else rng.choice(names)))
     ninput_mod = 0
@@ -811,6 +839,8 @@ def gen_match_rule(rng, prog):
         ninput_mod += 1
     for _ in range(npost):
         items.append(Item(cls=rng.choice(names)))
+    if lb_post:
+        items.append(Item(cls="#"))
     # ensure at least one input item in the rule
     if all(it.cls is None for it in items):
         items.append(Item(cls=rng.choice(names), mod=True, out=None))
